@@ -91,18 +91,20 @@ type v14Session struct {
 	viols  []*v14Viol
 	panics []string
 
-	pipe     *v14Pipe
-	wire     *v14Wire
-	progress atomic.Int64
-	sleepers atomic.Int64
-	pending  atomic.Int64
-	waveDone chan struct{}
-	cc       *ClientConn
-	srvDone  chan struct{}
-	realtime bool
-	started  int
-	stuck    string
-	setupErr string
+	pipe        *v14Pipe
+	wire        *v14Wire
+	progress    atomic.Int64
+	sleepers    atomic.Int64
+	pending     atomic.Int64
+	waveDone    chan struct{}
+	cc          *ClientConn
+	srvDone     chan struct{}
+	realtime    bool
+	started     int
+	stuck       string
+	stuckStacks string
+	leftover    string
+	setupErr    string
 }
 
 func (s *v14Session) viol(key, format string, a ...any) {
@@ -312,12 +314,31 @@ func (s *v14Session) run() {
 		}
 		if !s.await() {
 			s.stuck = fmt.Sprintf("wave %d", wi)
-			buf := make([]byte, 1<<20)
-			buf = buf[:runtime.Stack(buf, true)]
-			if len(buf) > 12000 {
-				buf = buf[:12000]
+			var dump string
+			if s.realtime {
+				buf := make([]byte, 1<<20)
+				dump = string(buf[:runtime.Stack(buf, true)])
+			} else {
+				dump = v14BubbleGoroutines()
 			}
-			s.stuck += "\n" + string(buf)
+			var keep []string
+			for _, g := range strings.Split(dump, "\n\n") {
+				var ls []string
+				for _, l := range strings.Split(g, "\n") {
+					if !strings.HasPrefix(l, "\t") { // function lines only
+						ls = append(ls, l)
+					}
+				}
+				if len(ls) > 7 {
+					ls = ls[:7]
+				}
+				keep = append(keep, strings.Join(ls, " < "))
+			}
+			dump = strings.Join(keep, "\n")
+			if len(dump) > 2500 {
+				dump = dump[:2500]
+			}
+			s.stuckStacks = dump
 			break
 		}
 	}
@@ -343,6 +364,47 @@ func (s *v14Session) run() {
 		s.pipe.closeAll()
 		synctest.Wait()
 	}
+	// let pending timers and harness sleeps run out (virtual time) before the bubble is left
+	for i := 0; i < 100; i++ {
+		if s.leftover = v14BubbleGoroutines(); s.leftover == "" {
+			break
+		}
+		time.Sleep(100 * time.Millisecond)
+		synctest.Wait()
+	}
+}
+
+// v14BubbleGoroutines returns the stacks of the goroutines of the caller's bubble other than
+// the caller and the synctest/testing plumbing ("" when there are none).
+func v14BubbleGoroutines() string {
+	buf := make([]byte, 4<<20)
+	buf = buf[:runtime.Stack(buf, true)]
+	gs := strings.Split(string(buf), "\n\n")
+	if len(gs) == 0 {
+		return ""
+	}
+	i := strings.Index(gs[0], "synctest bubble ")
+	if i < 0 {
+		return ""
+	}
+	tag := gs[0][i:]
+	if j := strings.IndexAny(tag, "]\n"); j > 0 {
+		tag = tag[:j+1]
+	}
+	var out []string
+	for _, g := range gs[1:] {
+		if !strings.Contains(g, tag) || strings.Contains(g, "testing/synctest.") || strings.Contains(g, "internal/synctest.Run") {
+			continue
+		}
+		if len(g) > 2500 {
+			g = g[:2500]
+		}
+		out = append(out, g)
+		if len(out) >= 6 {
+			break
+		}
+	}
+	return strings.Join(out, "\n\n")
 }
 
 // ---------------------------------------------------------------------------------------
